@@ -10,6 +10,7 @@ Definition d_obs (d : data) : obs :=
   else if k =? 1 then EvGather (dbool (dnth 1 d)) (dnat (dnth 2 d)) (dnat (dnth 3 d)) (dmap d_pay (dnth 4 d))
   else if k =? 2 then EvClose (dmap dnat (dnth 1 d)) (dmap dnat (dnth 2 d))
   else if k =? 3 then EvDump (dmap (dpair dnat dbool) (dnth 1 d)) (dmap d_pay (dnth 2 d))
+  else if k =? 5 then EvSettle (dmap dnat (dnth 1 d))
   else EvSetMax (dZ (dnth 1 d)).
 Definition d_counters (d : data) : counters := (dZ (dnth 0 d), dZ (dnth 1 d), dZ (dnth 2 d)).
 
